@@ -142,6 +142,98 @@ def run(ctx):
             if real != spec:
                 ctx.spec_fail('%s|policy=%s|%s' % (name, case['policy'], 'via-config' if case['via_config'] else 'argument'),
                               '%s under failonerror=%s does not deliver what the policy prescribes' % (name, case['policy']), c2)
+        # ---- the convenience wrappers around convert take the same policy, from the argument or from the config
+        def ref_convert(T, fields, fn, pol, errorvalue):
+            """independent reference: rows before the first failing cell under True, then the exception"""
+            hdr = list(T[0])
+            out = [tuple(hdr)]
+            for r in T[1:]:
+                row = []
+                for j, v in enumerate(r):
+                    if j < len(hdr) and (fields is None or hdr[j] in fields):
+                        try:
+                            row.append(fn(v))
+                        except Exception as e:   # noqa
+                            if pol == 'inline':
+                                row.append('EXC:' + type(e).__name__)
+                            elif pol:
+                                return out, util.errkind(e)
+                            else:
+                                row.append(errorvalue)
+                    else:
+                        row.append(v)
+                out.append(tuple(row))
+            return out, None
+
+        def show(rows_err):
+            rows, err = rows_err
+            rows = [tuple(('EXC:' + type(c).__name__) if isinstance(c, Exception) else c for c in r) for r in rows]
+            return repr(rows) + (' ERR ' + err if err else '')
+        from petl.util.parsers import numparser
+        wrappers = [
+            ('convertnumbers(strict=True)', lambda T, kw: etl.convertnumbers(T, strict=True, **kw), None, numparser(strict=True)),
+            ('convertall', lambda T, kw: etl.convertall(T, int, **kw), None, int),
+            ('convert(several fields)', lambda T, kw: etl.convert(T, ('a', 'b'), int, **kw), ('a', 'b'), int),
+            ('convert(dict)', lambda T, kw: etl.convert(T, {'a': int, 'b': float}, **kw), None, None),
+            ('formatall', lambda T, kw: etl.formatall(T, '{:d}', **kw), None, lambda v: '{:d}'.format(v)),
+            ('format', lambda T, kw: etl.format(T, 'b', '{:d}', **kw), ('b',), lambda v: '{:d}'.format(v)),
+            ('interpolateall', lambda T, kw: etl.interpolateall(T, '%d', **kw), None, lambda v: '%d' % v),
+            ('interpolate', lambda T, kw: etl.interpolate(T, 'a', '%d', **kw), ('a',), lambda v: '%d' % v),
+        ]
+        for ci in range(60 if ctx.thorough() else 12):
+            T = [['a', 'b']] + [[rng.choice([1, '2', 'x', None, 2.5, '']), rng.choice([3, 'y', '4', None])] for _ in range(rng.choice([1, 2, 3, 4]))]
+            for wname, call, fields, fn in wrappers:
+                for pol in (False, True, 'inline'):
+                    for via_config in (False, True):
+                        ev = rng.choice([None, 'E'])
+                        kw = {} if ev is None else {'errorvalue': ev}
+                        config.failonerror = saved
+                        try:
+                            if via_config:
+                                config.failonerror = pol
+                                v = call(T, kw)
+                                config.failonerror = not pol if pol != 'inline' else False     # read at construction, not at iteration
+                            else:
+                                v = call(T, dict(kw, failonerror=pol))
+                            real = show(util.collect(v))
+                        except Exception as e:   # noqa
+                            real = 'construction raised ' + type(e).__name__
+                        finally:
+                            config.failonerror = saved
+                        if wname == 'convert(dict)':
+                            # two different converters: apply field-wise
+                            a, ea = ref_convert(T, ('a',), int, pol, ev)
+                            if ea is None:
+                                want_rows, err = ref_convert([list(r) for r in a], ('b',), float, pol, ev)
+                                # under True the first failing cell in row order decides; recompute row by row
+                            hdr = T[0]
+                            out, err = [tuple(hdr)], None
+                            for r in T[1:]:
+                                row = []
+                                for j, v0 in enumerate(r):
+                                    f = {0: int, 1: float}.get(j)
+                                    try:
+                                        row.append(f(v0) if f else v0)
+                                    except Exception as e:   # noqa
+                                        if pol == 'inline':
+                                            row.append('EXC:' + type(e).__name__)
+                                        elif pol:
+                                            err = util.errkind(e)
+                                            break
+                                        else:
+                                            row.append(ev)
+                                if err:
+                                    break
+                                out.append(tuple(row))
+                            want = show((out, err))
+                        else:
+                            want = show(ref_convert(T, fields, fn, pol, ev))
+                        ctx.case((wname, repr(T), repr(pol), via_config, ev))
+                        ctx.count('wrapper:%s' % wname)
+                        if real != want:
+                            ctx.spec_fail('%s|policy=%s|%s' % (wname, pol, 'via-config' if via_config else 'argument'),
+                                          '%s under failonerror=%r (%s) does not deliver what the policy prescribes' % (wname, pol, 'petl.config' if via_config else 'argument'),
+                                          {'op': wname, 'table': repr(T), 'policy': repr(pol), 'via_config': via_config, 'errorvalue': repr(ev), 'real': real, 'want': want})
     finally:
         config.failonerror = saved
     ctx.exhaustive = True
